@@ -34,4 +34,28 @@ theorem decode_unsigned (tbl : List (Nat × Nat × Bool × Nat × Bool)) (k w pb
   rw [h2, interpret_unsigned n pbits (Nat.lt_of_lt_of_le hn hp)]
   simp [BitVec.ofInt_natCast]
 
+/-- what the emitter does with a literal, spelled out: the chosen opcode's decoder reads exactly the
+    bytes written, unsigned, into a parameter wide enough for them -/
+theorem encode_spec (v : BitVec 64) :
+    ∃ k w p, encodeInt v = ⟨k, toBytes v.toNat w⟩ ∧ v.toNat < 256 ^ w ∧ 256 ^ w ≤ 2 ^ p ∧
+      findDecoder k vmDecoders = some (w, false, p, false) ∧
+      findDecoder k foldDecoders = some (w, false, p, false) := by
+  have hv : v.toNat < 2 ^ 64 := v.isLt
+  by_cases h0 : v.toNat = 0
+  · exact ⟨0, 0, 32, by simp [encodeInt, emitZeroFirst, h0, toBytes], by simp [h0], by decide, by decide, by decide⟩
+  · by_cases h1 : v.toNat < 256
+    · exact ⟨1, 1, 32, by simp [encodeInt, emitZeroFirst, h0, emitBranches, firstBranch, h1], by simpa using h1,
+        by decide, by decide, by decide⟩
+    · by_cases h2 : v.toNat < 65536
+      · exact ⟨2, 2, 32, by simp [encodeInt, emitZeroFirst, h0, emitBranches, firstBranch, h1, h2], by simpa using h2,
+          by decide, by decide, by decide⟩
+      · by_cases h3 : v.toNat < 16777216
+        · exact ⟨3, 3, 32, by simp [encodeInt, emitZeroFirst, h0, emitBranches, firstBranch, h1, h2, h3],
+            by simpa using h3, by decide, by decide, by decide⟩
+        · by_cases h4 : v.toNat < 4294967296
+          · exact ⟨4, 4, 32, by simp [encodeInt, emitZeroFirst, h0, emitBranches, firstBranch, h1, h2, h3, h4],
+              by simpa using h4, by decide, by decide, by decide⟩
+          · exact ⟨8, 8, 64, by simp [encodeInt, emitZeroFirst, h0, emitBranches, firstBranch, h1, h2, h3, h4, emitElse],
+              by simpa using hv, by decide, by decide, by decide⟩
+
 end Morfuse.Lang.IntEnc
